@@ -1,0 +1,24 @@
+//go:build verif
+
+package common
+
+// VerifHook, when set, is told about every acquisition and release of the
+// locks that guard shared state (see VerifLock). It exists only in builds
+// with the "verif" tag and is used by the external verification harness
+// to observe and control the interleaving of critical sections.
+var VerifHook func(event string, lock any)
+
+// VerifLock reports that the caller is about to acquire lock and returns
+// the function that reports its release. Use as the first statement of a
+// locking method: defer VerifLock(l)().
+func VerifLock(lock any) func() {
+	if h := VerifHook; h != nil {
+		h("acquire", lock)
+	}
+
+	return func() {
+		if h := VerifHook; h != nil {
+			h("release", lock)
+		}
+	}
+}
